@@ -13,6 +13,8 @@ import (
 	"io"
 	"math/rand"
 	"net"
+	"strconv"
+	"strings"
 	"sync"
 	"time"
 
@@ -32,8 +34,8 @@ type scen struct {
 	Tk string `json:"tk"`
 }
 type behaviour struct {
-	Sc []scen  `json:"sc"`
-	Tr []event `json:"tr"`
+	Sc []scen    `json:"sc"`
+	Tr []event   `json:"tr"`
 	Ov *override `json:"ov,omitempty"`
 }
 
@@ -45,6 +47,10 @@ type override struct {
 	Lens    []int  `json:"lens"`    // byte lengths of the client tokens of a stream that does not authenticate
 	Variant string `json:"variant"` // "random", "flip-salt", "flip-len", "flip-lentag"
 	KeyPos  *int   `json:"keypos"`
+	// crafted authenticated plaintext (C18): "zero" (a zero-length chunk before every data chunk), "overlen" (length field
+	// above 0x3FFF), "full" (0x3FFF-byte chunks), "atyp-N" (address type N in a bad address), "domlen-N" (domain of N bytes),
+	// "trunc-N" (address header cut after N bytes), "slow" (the target reads 512 bytes every 2 ms)
+	Craft string `json:"craft"`
 }
 
 var envActs = map[string]bool{"Connect": true, "CSend": true, "CFin": true, "TSend": true, "TFin": true, "TRst": true, "Tick": true, "CloseListener": true}
@@ -59,34 +65,47 @@ type options struct {
 	holdMs    int
 	hangMs    int
 	openHook  func(conn net.Conn, c int) service.TCPConnMetrics // extra (real Prometheus) metrics sink, may be nil
-	nkeys     int                                              // 0: seed-chosen from {1,3,100}
-	cipher    string                                           // "": seed-chosen
+	nkeys     int                                               // 0: seed-chosen from {1,3,100}
+	cipher    string                                            // "": seed-chosen
 	ownWaits  bool
 }
 
 type snap struct {
-	I          int    `json:"i"`
-	A          string `json:"a"`
-	NCS        int    `json:"ncs"`
-	NTS        int    `json:"nts"`
-	Cfin       bool   `json:"cfin"`
-	Tfin       bool   `json:"tfin"`
-	Trst       bool   `json:"trst"`
-	ML         int    `json:"ml"`
-	DL         int    `json:"dl"`
-	CL         int    `json:"cl"`
-	TL         int    `json:"tl"`
-	WCS        int64  `json:"wcs"`
-	WTS        int64  `json:"wts"`
-	WTR        int64  `json:"wtr"`
-	WCR        int64  `json:"wcr"`
-	CloseAt    int64  `json:"closeAt"`
-	TfinPolite bool   `json:"tfinPolite"`
-	PreDoneAt  int64  `json:"preDoneAt"`
-	LastSendAt int64  `json:"lastSendAt"`
-	CfinAt     int64  `json:"cfinAt"`
-	AddrDoneAt int64  `json:"addrDoneAt"`
+	I          int      `json:"i"`
+	A          string   `json:"a"`
+	NCS        int      `json:"ncs"`
+	NTS        int      `json:"nts"`
+	Cfin       bool     `json:"cfin"`
+	Tfin       bool     `json:"tfin"`
+	Trst       bool     `json:"trst"`
+	ML         int      `json:"ml"`
+	DL         int      `json:"dl"`
+	CL         int      `json:"cl"`
+	TL         int      `json:"tl"`
+	WCS        int64    `json:"wcs"`
+	WTS        int64    `json:"wts"`
+	WTR        int64    `json:"wtr"`
+	WCR        int64    `json:"wcr"`
+	CloseAt    int64    `json:"closeAt"`
+	TfinPolite bool     `json:"tfinPolite"`
+	PreDoneAt  int64    `json:"preDoneAt"`
+	LastSendAt int64    `json:"lastSendAt"`
+	CfinAt     int64    `json:"cfinAt"`
+	AddrDoneAt int64    `json:"addrDoneAt"`
 	StallKinds []string `json:"stallKinds"`
+	Cancelled  bool     `json:"cancelled"`
+}
+
+// scriptStep: one environment action as performed on (or affecting) this connection, with how much each observer of
+// the connection had logged just before it (TcpConnTraceM)
+type scriptStep struct {
+	A  string `json:"a"`
+	K  string `json:"k"`
+	V  int    `json:"v"`
+	TL int    `json:"tl"`
+	CL int    `json:"cl"`
+	ML int    `json:"ml"`
+	DL int    `json:"dl"`
 }
 
 type tokOut struct {
@@ -97,78 +116,83 @@ type tokOut struct {
 }
 
 type caseRec struct {
-	Ev         string   `json:"ev"`
-	Beh        int      `json:"beh"`
-	C          int      `json:"c"`
-	Hs         string   `json:"hs"`
-	Tk         string   `json:"tk"`
-	Cipher     string   `json:"cipher"`
-	NKeys      int      `json:"nkeys"`
-	KeyPos     int      `json:"keypos"`
-	KeyID      string   `json:"keyid"`
-	Replay     bool     `json:"replaycache"`
-	Atyp       int      `json:"atyp"`
-	Variant    string   `json:"variant"`
-	TimeoutMs  int      `json:"timeoutMs"`
-	Csent      []tokOut `json:"csent"`
-	Tsent      int      `json:"tsent"`
-	Cfin       bool     `json:"cfin"`
-	Tfin       bool     `json:"tfin"`
-	Trst       bool     `json:"trst"`
-	Tlog       []int    `json:"tlog"`
-	Clog       []int    `json:"clog"`
-	Mlog       []mrec   `json:"mlog"`
-	Dials      int      `json:"dials"`
-	DialAddrs  []string `json:"dialAddrs"`
-	AcceptAt   int64    `json:"acceptAt"`
-	CloseAt    int64    `json:"closeAt"`
-	CfinAt     int64    `json:"cfinAt"`
-	PreDoneAt  int64    `json:"preDoneAt"`
-	AddrDoneAt int64    `json:"addrDoneAt"`
-	StallKinds []string `json:"stallKinds"`
-	LastSendAt int64    `json:"lastSendAt"`
-	TfinPolite bool     `json:"tfinPolite"`
-	Drain      string   `json:"drain"`
-	WCS        int64    `json:"wcs"`
-	WTR        int64    `json:"wtr"`
-	WTS        int64    `json:"wts"`
-	WCR        int64    `json:"wcr"`
-	Snaps      []snap   `json:"snaps"`
-	Stalls     []string `json:"stalls"`
-	Hung       bool     `json:"hung"`
-	Connected  bool     `json:"connected"`
-	Reset      bool     `json:"reset"` // never accepted: the listener was closed first
-	WriteErrs  int      `json:"writeErrs"`
-	ReqAddr    string   `json:"reqAddr"`
-	Env        []string `json:"env"` // the environment script as performed (for replays and samples)
+	Ev         string       `json:"ev"`
+	Beh        int          `json:"beh"`
+	C          int          `json:"c"`
+	Hs         string       `json:"hs"`
+	Tk         string       `json:"tk"`
+	Cipher     string       `json:"cipher"`
+	NKeys      int          `json:"nkeys"`
+	KeyPos     int          `json:"keypos"`
+	KeyID      string       `json:"keyid"`
+	Replay     bool         `json:"replaycache"`
+	Atyp       int          `json:"atyp"`
+	Variant    string       `json:"variant"`
+	TimeoutMs  int          `json:"timeoutMs"`
+	Csent      []tokOut     `json:"csent"`
+	Tsent      int          `json:"tsent"`
+	Cfin       bool         `json:"cfin"`
+	Tfin       bool         `json:"tfin"`
+	Trst       bool         `json:"trst"`
+	Tlog       []int        `json:"tlog"`
+	Clog       []int        `json:"clog"`
+	Mlog       []mrec       `json:"mlog"`
+	Dials      int          `json:"dials"`
+	DialAddrs  []string     `json:"dialAddrs"`
+	AcceptAt   int64        `json:"acceptAt"`
+	CloseAt    int64        `json:"closeAt"`
+	CfinAt     int64        `json:"cfinAt"`
+	PreDoneAt  int64        `json:"preDoneAt"`
+	AddrDoneAt int64        `json:"addrDoneAt"`
+	StallKinds []string     `json:"stallKinds"`
+	LastSendAt int64        `json:"lastSendAt"`
+	TfinPolite bool         `json:"tfinPolite"`
+	Drain      string       `json:"drain"`
+	WCS        int64        `json:"wcs"`
+	WTR        int64        `json:"wtr"`
+	WTS        int64        `json:"wts"`
+	WCR        int64        `json:"wcr"`
+	Snaps      []snap       `json:"snaps"`
+	Stalls     []string     `json:"stalls"`
+	Hung       bool         `json:"hung"`
+	Handled    bool         `json:"handled"`
+	Cancelled  bool         `json:"cancelled"`
+	Connected  bool         `json:"connected"`
+	Reset      bool         `json:"reset"` // never accepted: the listener was closed first
+	WriteErrs  int          `json:"writeErrs"`
+	ReqAddr    string       `json:"reqAddr"`
+	Script     []scriptStep `json:"script"`
+	Env        []string     `json:"env"` // the environment script as performed (for replays and samples)
 }
 
 type behRec struct {
-	Ev                    string `json:"ev"`
-	Beh                   int    `json:"beh"`
-	ServeReturned         bool   `json:"serveReturned"`
-	HandlersAtServeReturn int    `json:"handlersAtServeReturn"`
-	ListenerClosedByScript bool  `json:"listenerClosedByScript"`
-	Panics                int    `json:"panics"`
-	WallMs                int64  `json:"wallMs"`
+	Ev                     string `json:"ev"`
+	Beh                    int    `json:"beh"`
+	ServeReturned          bool   `json:"serveReturned"`
+	HandlersAtServeReturn  int    `json:"handlersAtServeReturn"`
+	ListenerClosedByScript bool   `json:"listenerClosedByScript"`
+	Panics                 int    `json:"panics"`
+	WallMs                 int64  `json:"wallMs"`
 }
 
 type cconn struct {
-	plan    *connPlan
-	conn    *net.TCPConn
-	tln     *net.TCPListener
-	tconn   *net.TCPConn
-	nsent   int
-	ntsent  int
-	cfin    bool
-	tfin    bool
-	trst    bool
+	plan                                      *connPlan
+	conn                                      *net.TCPConn
+	tln                                       *net.TCPListener
+	tconn                                     *net.TCPConn
+	nsent                                     int
+	ntsent                                    int
+	cfin                                      bool
+	tfin                                      bool
+	trst                                      bool
 	cfinAt, preDoneAt, lastSendAt, addrDoneAt int64
-	stallKinds []string
-	tfinPolite bool
-	sentBytes  int
-	rec        *caseRec
-	hasBadSent bool
+	stallKinds                                []string
+	tfinPolite                                bool
+	sentBytes                                 int
+	rec                                       *caseRec
+	hasBadSent                                bool
+	cancelled                                 bool
+	slow                                      bool
 }
 
 type mapDialer struct {
@@ -275,7 +299,7 @@ func runBehaviour(idx int, beh behaviour, opt options) ([]*caseRec, *behRec) {
 	ciphers.Update(klist)
 	rcap := 0
 	if replayOn {
-		rcap = 50
+		rcap = 50 + 10*len(beh.Sc) // every replayed handshake must stay inside the history while the behaviour runs
 	}
 	rc := service.NewReplayCache(rcap)
 	auth := service.NewShadowsocksStreamAuthenticator(ciphers, &rc, nil, nil)
@@ -389,9 +413,19 @@ func runBehaviour(idx int, beh behaviour, opt options) ([]*caseRec, *behRec) {
 				req = fmt.Sprintf("[2001:db8::%x:%x]:%d", idx%60000+1, c, 8443)
 			}
 		}
+		if beh.Ov != nil && strings.HasPrefix(beh.Ov.Craft, "domlen-") && sc.Tk != "deny" {
+			n, _ := strconv.Atoi(beh.Ov.Craft[7:])
+			atyp = 3
+			host := strings.Repeat("x", n)
+			if n > 8 {
+				host = fmt.Sprintf("h%d-%d.", idx, c) + strings.Repeat("y", n-len(fmt.Sprintf("h%d-%d.", idx, c)))
+			}
+			req = fmt.Sprintf("%s:%d", host, 7000+c)
+		}
 		cc := &cconn{cfinAt: -1, preDoneAt: -1, lastSendAt: -1, addrDoneAt: -1, stallKinds: []string{}}
 		cc.plan = buildPlan(rng, c, sc.Hs, sc.Tk, keys[pos], kinds[c], ntgt[c], req, atyp, beh.Ov, func(p *connPlan) { primes = append(primes, p) })
 		cc.plan.KeyPos = pos
+		cc.slow = beh.Ov != nil && beh.Ov.Craft == "slow"
 		switch sc.Tk {
 		case "ok":
 			cc.tln, err = net.ListenTCP("tcp", &net.TCPAddr{IP: net.IPv4(127, 0, 0, 1)})
@@ -454,7 +488,7 @@ func runBehaviour(idx int, beh behaviour, opt options) ([]*caseRec, *behRec) {
 		p := conns[c].plan
 		r := &caseRec{Ev: "Case", Beh: idx, C: c, Hs: p.Hs, Tk: p.Tk, Cipher: p.Key.cipher, NKeys: nk, KeyPos: p.KeyPos, KeyID: p.Key.id,
 			Replay: replayOn, Atyp: p.Atyp, Variant: p.Variant, ReqAddr: p.ReqAddr, TimeoutMs: opt.timeoutMs, CfinAt: -1, PreDoneAt: -1, LastSendAt: -1, CloseAt: -1, AcceptAt: -1,
-			Csent: []tokOut{}, Tlog: []int{}, Clog: []int{}, Mlog: []mrec{}, Snaps: []snap{}, Stalls: []string{}, DialAddrs: []string{}}
+			Script: []scriptStep{}, Csent: []tokOut{}, Tlog: []int{}, Clog: []int{}, Mlog: []mrec{}, Snaps: []snap{}, Stalls: []string{}, DialAddrs: []string{}}
 		recs[c] = r
 		conns[c].rec = r
 	}
@@ -500,9 +534,10 @@ func runBehaviour(idx int, beh behaviour, opt options) ([]*caseRec, *behRec) {
 		s := snap{I: i, A: e.A, NCS: cc.nsent, NTS: cc.ntsent, Cfin: cc.cfin, Tfin: cc.tfin, Trst: cc.trst,
 			ML: len(o.mlog), DL: o.dials, CL: len(o.clog), TL: len(o.tlog), WCS: o.wireCS, WTS: o.wireTS, WTR: o.wireTR, WCR: o.wireCR,
 			CloseAt: o.closeAt, TfinPolite: cc.tfinPolite, PreDoneAt: cc.preDoneAt, LastSendAt: cc.lastSendAt, CfinAt: cc.cfinAt,
-			AddrDoneAt: cc.addrDoneAt, StallKinds: append([]string{}, cc.stallKinds...)}
+			AddrDoneAt: cc.addrDoneAt, StallKinds: append([]string{}, cc.stallKinds...), Cancelled: cc.cancelled}
 		b.mu.Unlock()
 		cc.rec.Snaps = append(cc.rec.Snaps, s)
+		addStep(cc, e, s)
 	}
 	for i, e := range beh.Tr {
 		if obsActs[e.A] {
@@ -540,6 +575,15 @@ func runBehaviour(idx int, beh behaviour, opt options) ([]*caseRec, *behRec) {
 			time.Sleep(time.Duration(opt.holdMs) * time.Millisecond)
 		}
 		takeSnap(i, e)
+		if e.C == 0 { // clock and listener: part of every connection's script
+			for c2 := 1; c2 <= nconn; c2++ {
+				b.mu.Lock()
+				o := b.get(c2)
+				sn := snap{ML: len(o.mlog), DL: o.dials, CL: len(o.clog), TL: len(o.tlog)}
+				b.mu.Unlock()
+				addStep(conns[c2], e, sn)
+			}
+		}
 		envLog = append(envLog, fmt.Sprintf("%s/%d/%d", e.A, e.C, e.V))
 		switch e.A {
 		case "Tick":
@@ -617,6 +661,13 @@ func runBehaviour(idx int, beh behaviour, opt options) ([]*caseRec, *behRec) {
 			cc.tconn.Close()
 		case "CloseListener":
 			br.ListenerClosedByScript = true
+			b.mu.Lock()
+			for c2, x := range conns { // connections whose dial has not been seen yet run with a cancelled context from now on
+				if b.get(c2).dials == 0 {
+					x.cancelled = true
+				}
+			}
+			b.mu.Unlock()
 			ln.Close()
 		}
 	}
@@ -655,6 +706,19 @@ func runBehaviour(idx int, beh behaviour, opt options) ([]*caseRec, *behRec) {
 				cc.cfin = true
 				cc.cfinAt = b.ms()
 				cc.conn.CloseWrite()
+			}
+			if !b.wait(await, func() bool { return b.get(c).handled }) {
+				// likewise every target eventually ends its stream (the real handler may have dialled where the model's
+				// behaviour had the dial fail or not happen, so the script has no TFin for it)
+				b.mu.Lock()
+				tc := cc.tconn
+				b.mu.Unlock()
+				if tc != nil && !cc.tfin && !cc.trst {
+					takeSnap(len(beh.Tr), event{A: "EndTFin", C: c})
+					cc.tfin = true
+					cc.tfinPolite = true
+					tc.CloseWrite()
+				}
 			}
 			if !b.wait(hang, func() bool { return b.get(c).handled }) {
 				cc.rec.Hung = true
@@ -701,6 +765,8 @@ func runBehaviour(idx int, beh behaviour, opt options) ([]*caseRec, *behRec) {
 		r.Clog = append(r.Clog, o.clog...)
 		r.Mlog = append(r.Mlog, o.mlog...)
 		r.Dials = o.dials
+		r.Handled = o.handled
+		r.Cancelled = cc.cancelled
 		r.DialAddrs = append(r.DialAddrs, o.dialAddrs...)
 		r.AcceptAt, r.CloseAt = o.acceptAt, o.closeAt
 		r.CfinAt, r.PreDoneAt, r.LastSendAt = cc.cfinAt, cc.preDoneAt, cc.lastSendAt
@@ -721,6 +787,23 @@ func runBehaviour(idx int, beh behaviour, opt options) ([]*caseRec, *behRec) {
 	return out, br
 }
 
+// addStep appends the environment action to the connection's script (before it is performed)
+func addStep(cc *cconn, e event, s snap) {
+	st := scriptStep{A: e.A, V: e.V, TL: s.TL, CL: s.CL, ML: s.ML, DL: s.DL}
+	switch e.A {
+	case "CSend":
+		if cc.nsent < len(cc.plan.Toks) {
+			t := cc.plan.Toks[cc.nsent]
+			st.K, st.V = kindNames[t.Kind], t.V
+		}
+	case "EndHold":
+		st.A = "CFin"
+	case "EndTFin":
+		st.A = "TFin"
+	}
+	cc.rec.Script = append(cc.rec.Script, st)
+}
+
 func targetAccept(b *board, cc *cconn) {
 	conn, err := cc.tln.AcceptTCP()
 	if err != nil {
@@ -733,7 +816,13 @@ func targetAccept(b *board, cc *cconn) {
 	c := cc.plan.C
 	ch := newChopper(cc.plan.Payloads, func(id int) { b.update(c, func(o *connObs) { o.tlog = append(o.tlog, id) }) })
 	buf := make([]byte, 32768)
+	if cc.slow {
+		buf = buf[:512]
+	}
 	for {
+		if cc.slow {
+			time.Sleep(2 * time.Millisecond)
+		}
 		n, err := conn.Read(buf)
 		if n > 0 {
 			b.update(c, func(o *connObs) { o.wireTR += int64(n) })
